@@ -223,6 +223,18 @@ check('C15', 'E2', 'model_checking',
       'its first error).',
       'DESIGN.md 2/C15')
 
-_PENDING = {'C10': 'check not built yet in this round (planned: bounded exhaustive exploration, see DESIGN.md section 2)', 'C11': 'check not built yet in this round (planned: bounded exhaustive exploration, see DESIGN.md section 2)', 'C13': 'check not built yet in this round (planned: bounded exhaustive exploration, see DESIGN.md section 2)', 'C19': 'check not built yet in this round (planned: bounded exhaustive exploration, see DESIGN.md section 2)'}
+check('C13', 'E1', 'exploration',
+      'bounded exhaustive enumeration of sectioning forests x split levels x filename templates x themes; file-ownership partition oracle',
+      'Every sequence of <= 3 (quick) / 4 (thorough) headings over the class levels (arbitrary level jumps), each unit with a '
+      'unique body marker, in a plain variant and a variant with a footnote, a label and colliding titles full of forbidden '
+      'characters, is rendered for EVERY split level -10..6 x six filename templates (default, id/title alternatives, numbered, '
+      'two single-file forms, a static list that runs out) x forbidden-character sets x HTML5 default/minimal and XHTML; the '
+      'body markers must be partitioned over the files exactly as the ownership model predicts (a unit owns a file iff its '
+      'level <= split level), each exactly once, in document order, footnote text after the body text of its file; file names '
+      'must be free of forbidden characters and identical when the same input is rendered again in a fresh process.',
+      'Trusted: the ownership model (nearest heading at or above with level <= split level) and unique marker words.',
+      'DESIGN.md 2/C13')
+
+_PENDING = {'C10': 'check not built yet in this round (planned: bounded exhaustive exploration, see DESIGN.md section 2)', 'C11': 'check not built yet in this round (planned: bounded exhaustive exploration, see DESIGN.md section 2)', 'C19': 'check not built yet in this round (planned: bounded exhaustive exploration, see DESIGN.md section 2)'}
 for _p, _why in _PENDING.items():
     NOT_APPLICABLE.append({'property_id': _p, 'reason': _why})
